@@ -27,8 +27,42 @@ TREE_PICKLES = ["res/evil.pickle.gz", "res/sub/evil.pickle.gz", "dec/evil.pickle
                 "res/to-unicode-Adobe-evil.pickle.gz"]
 
 
+# look-alike spellings: (separator, dot).  NFKC maps U+FF0F -> "/", U+FF0E and U+2024 -> ".", U+FF3C -> a backslash,
+# U+2105 -> "c/o"; U+2215 and U+29F8 have no compatibility mapping; C0 AF is an overlong (invalid) UTF-8 spelling of "/"
+LOOK = {"fw": ("\uff0f", "\uff0e"), "fwl": ("\uff0f", "\u2024"), "fwa": ("\uff0f", "."), "bs": ("\uff3c", "\uff0e"),
+        "div": ("\u2215", "."), "big": ("\u29f8", "."), "lig": ("\u2105", "."), "over": (b"\xc0\xaf", ".")}
+
+
+def spell_look(name, root, site):
+    """a name whose separators / dots are look-alikes: one plain word as far as the file system is concerned.
+    An absolute one carries the scratch root (spelled the same way), so that an implementation that turns the
+    look-alikes into real separators still stays inside the sandbox.  -> str, or bytes for the overlong spelling"""
+    sep, dot = LOOK[name["look"]]
+    words = [dot * 2 if x == "dd" else dot if x == "d" else SIB[site] if x == "sib" else SEG[x] for x in name["segs"]]
+    if name["abs"]:
+        words = [""] + root.strip("/").split("/") + words
+    elif len(words) >= 2 and words[0] == "":
+        # an empty first segment: the spelling starts with the (look-alike) separator - absolute as well
+        words = [""] + root.strip("/").split("/") + words[1:]
+    if isinstance(sep, bytes):
+        return sep.join(w.encode("utf-8") for w in words)
+    return sep.join(words)
+
+
+def seen_name(text):
+    """the name as the library's literal_name() hands it on: UTF-8 decoded, or str(bytes) when that fails"""
+    if isinstance(text, str):
+        return text
+    try:
+        return text.decode("utf-8")
+    except UnicodeDecodeError:
+        return str(text)
+
+
 def spell(name, root, site="cmap"):
-    """model name {abs, segs} -> the string placed in the document (site: "cmap" or "image")"""
+    """model name {abs, segs, look} -> the string placed in the document (site: "cmap" or "image")"""
+    if name.get("look", "ascii") != "ascii":
+        return spell_look(name, root, site)
     s = "/".join(SIB[site] if x == "sib" else SEG[x] for x in name["segs"])
     if name["abs"]:
         return root.rstrip("/") + "/" + s
@@ -56,16 +90,18 @@ def font_for(site, text, objs, nxt):
     ordering = b"Identity"
     enc = Name("Identity-H")
     f = {"Type": Name("Font"), "Subtype": Name("Type0"), "BaseFont": Name("VerifCID")}
+    from .pdfwriter import Raw, ser_name as _sn
+    as_name = Name(text) if isinstance(text, str) else Raw(_sn(text))
     if site == "enc":
-        enc = Name(text)
+        enc = as_name
     elif site == "cmapname":
-        enc = new(Stream({"Type": Name("CMap"), "CMapName": Name(text)}, b"%!PS-Adobe-3.0 Resource-CMap\n"))
+        enc = new(Stream({"Type": Name("CMap"), "CMapName": as_name}, b"%!PS-Adobe-3.0 Resource-CMap\n"))
     elif site == "usecmap":
         from .pdfwriter import ser_name
         f["ToUnicode"] = new(Stream({}, b"/CIDInit /ProcSet findresource begin 12 dict begin begincmap\n"
                                     + ser_name(text) + b" usecmap\nendcmap end end\n"))
     elif site == "regord":
-        ordering = text.encode("latin-1", "replace")
+        ordering = text if isinstance(text, bytes) else text.encode("latin-1" if all(ord(ch) < 256 for ch in text) else "utf-8")
     cid = new({"Type": Name("Font"), "Subtype": Name("CIDFontType2"), "BaseFont": Name("VerifCID"),
                "CIDSystemInfo": {"Registry": b"Adobe", "Ordering": ordering, "Supplement": 0},
                "FontDescriptor": desc, "DW": 1000})
